@@ -184,7 +184,17 @@ func VH_GEN_xz() {
 	var all []byte
 	for i := 0; i < nb; i++ {
 		var chunks []lzma.VSpecLZMA2Chunk
-		switch vConcretize(int(vNondetU8("payload")) % 4) {
+		switch vConcretize(int(vNondetU8("payload")) % 5) {
+		case 4: // a match whose distance exceeds the smallest reader window but not the declared dictionary
+			if dictCode < 3 {
+				vAssume(false) // needs a declared dictionary above 4.5 KiB
+			}
+			raw := make([]byte, 5000)
+			for k := range raw {
+				raw[k] = byte((k*11 + 7) % 253)
+			}
+			chunks = []lzma.VSpecLZMA2Chunk{{Kind: 1, Raw: raw},
+				{Kind: 5, LC: 3, LP: 0, PB: 2, Ops: []lzma.VSpecOp{{Kind: 1, Dist: 4499, Len: 20}, {Kind: 0, Byte: '!'}}}}
 		case 0: // empty block: only the end chunk
 		case 1:
 			chunks = []lzma.VSpecLZMA2Chunk{{Kind: 1, Raw: []byte("raw!")}}
